@@ -81,6 +81,35 @@ def run(run: Run):
             return [(t, (s, "prover", 0))] if t else []
 
     sessions.run_sessions(run, fresh, oracle2, relevant=0xFF, extra_terms=Extra(), name="c19f")
+    # the wire constants of the Gallina model itself: the labels, personas, nonce key layout and batch size the theorems speak about are the
+    # ones the harness decodes the implementation's logs with (and whose Blake2b outputs C13 compares with the implementation's nonces)
+    hdr = """From Coq Require Import NArith List Bool String Ascii.
+From BP Require Import Model.Codec Model.Transcript Model.Verifier Model.VerifyTop Model.Nonce Exec.CasesLib Exec.VerifyExec.
+Import ListNotations. Open Scope N_scope.
+Fixpoint nl_eqb (a b : list N) : bool := match a, b with [], [] => true | x :: a', y :: b' => (x =? y)%N && nl_eqb a' b' | _, _ => false end.
+"""
+    cases, what = [], []
+    for lab, code in vmodel.LABELS.items():
+        cases.append(f'String.eqb (label_string (label_of_code {code})) "{lab}"%string')
+        what.append(f"transcript label {lab!r}")
+    for lab, code in vmodel.NL.items():
+        ctor = {"alpha": "NAlpha", "dL": "NdL", "dR": "NdR", "d": "Nd", "eta": "NEta"}[lab]
+        cases.append(f'String.eqb (nlabel_string {ctor}) "{lab}"%string && (nl_code {ctor} =? {code})%N')
+        what.append(f"nonce persona {lab!r}")
+    for _ in range(12):
+        seed = rng.randrange(L)
+        j = rng.choice([None, 0, 1, 5, 63, 255, 256, 1000])
+        k = rng.choice([0, 1, 5, 255, 256, 1000])
+        key = b"\x00" + seed.to_bytes(32, "little") + (b"" if j is None else b"j" + j.to_bytes(4, "little")) + b"k" + k.to_bytes(4, "little")
+        cases.append(f"nl_eqb (nonce_key {seed} {coq_opt(None if j is None else str(j) + '%nat')} (Some {k}%nat)) {coq_list([str(x) for x in key])}")
+        what.append(f"nonce key layout (j={j}, k={k})")
+    cases.append("Nat.eqb MAX_BATCH 256")
+    what.append("internal batch size 256")
+    badc = coq_eval_bools("c19w", hdr, cases, shards=1)
+    run.bump("wire constants of the model", len(cases))
+    run.count(["wire-constants"], {"check": "labels, personas, nonce key layout, batch size of the Gallina model vs the harness's decoding tables", "cases": len(cases)})
+    for i in badc:
+        run.violation(f"the Gallina model's wire constant differs from the one the implementation's logs are decoded with: {what[i]}", {"kind": "wire-constant", "what": what[i], "term": cases[i]}, no_input=True)
     return run.finish(
         "proof",
         "20 recorded 0.4.0 vectors over Ristretto (bits 1..64, aggregation 1..32, extension degrees 1..6, seeds, promises, two contexts, capacity = or 2x): commitments, proof bytes "
